@@ -6,7 +6,10 @@ import re
 
 import verif
 
-RULE = ("accepted frames are cut to the length the compiled program returns (the snapshot length, as the kernel does) and "
+RULE = ("plus an end-to-end stage: the real startPort/PacketScanEngine on a veth pair in a private network namespace (real "
+        "AF_PACKET socket, the filter the engine installs, kernel BPF), frames injected on the peer, records taken from the "
+        "engine's logger; "
+        "accepted frames are cut to the length the compiled program returns (the snapshot length, as the kernel does) and "
         "delivered in fresh buffers or through a ring of 1-3 reused buffers; "
         "cases = (command wiring translated from command/*.go, link mode, random scan range: subnet /1../32 or none, "
         "0-5 or 200 port ranges); per case the REAL filter builder's text is compiled by the real libpcap and run in the "
@@ -139,6 +142,9 @@ def judge(case, fo, allflags):
             got.update(mac=fo.get("mac", ""))
         if got != exp:
             return ("unfaithful:" + cls, "the record %s does not carry the frame's own fields %s" % (got, exp))
+        if cls == "arp" and not fo.get("vendor_ok", True):
+            return ("unfaithful:arp-vendor", "the vendor %r is not the OUI table's entry for the sender MAC %s of the frame" % (
+                fo.get("vendor", ""), fo.get("mac", "")))
     return None
 
 
@@ -200,6 +206,66 @@ def run_cases(ctx, ins, tag):
     return ctx.read_jsonl(os.path.join(ctx.work, tag + ".jsonl")) if ok else []
 
 
+def run_e2e(ctx, args, tag):
+    """End-to-end stage: the real startPort/PacketScanEngine on a veth pair in a private network namespace (real AF_PACKET
+    source, the filter the engine installs, the kernel's BPF interpreter and snapshot cut). Returns case rows."""
+    if not os.path.exists(os.path.join(verif.REPO, "command", "verif_export_c03.go")):
+        ctx.skipped.append("e2e stage: hook command/verif_export_c03.go is not in the tree")
+        return []
+    if not ctx.harness_build("c03e2e"):
+        return []
+    ns = "vc3-%d-%s" % (os.getpid(), tag)
+    setup = [["ip", "netns", "add", ns],
+             ["ip", "-n", ns, "link", "add", "vc3a", "type", "veth", "peer", "name", "vc3b"],
+             ["ip", "netns", "exec", ns, "sysctl", "-qw", "net.ipv6.conf.all.disable_ipv6=1", "net.ipv6.conf.default.disable_ipv6=1"],
+             ["ip", "-n", ns, "link", "set", "lo", "up"], ["ip", "-n", ns, "link", "set", "vc3a", "up"],
+             ["ip", "-n", ns, "link", "set", "vc3b", "up"]]
+    rows = []
+    try:
+        for c in setup:
+            rc, out = verif.sh(c, timeout=30)
+            if rc != 0 and "sysctl" not in c:
+                ctx.skipped.append("e2e stage: cannot set up a network namespace (%s): %s" % (" ".join(c[:4]), out.strip()[:120]))
+                return []
+        out_file = os.path.join(ctx.work, tag + ".jsonl")
+        rc, out = verif.sh(["ip", "netns", "exec", ns, os.path.join(verif.HBIN, "c03e2e"), "-out", out_file,
+                            "-wiring", os.path.join(ctx.work, "wiring.json")] + [str(a) for a in args],
+                           timeout=600, env=verif.GOENV, cwd=ctx.work)
+        if rc != 0:
+            ctx.broken.append(("correspondence: e2e driver failed (rc=%d)" % rc, out[-1500:]))
+            return []
+        rows = ctx.read_jsonl(out_file)
+    finally:
+        verif.sh(["ip", "netns", "del", ns], timeout=30)
+    return rows
+
+
+def judge_e2e(ctx, rows, af, seen):
+    for c in rows:
+        c.setdefault("raw_source", False)
+        if c.get("err") in ("sentinel-not-reported", "second-sentinel-not-reported"):
+            fo = {"frame": c["sentinel"], "class": "to-scanning-host", "vm": False, "record": False, "n": 0}
+            report(ctx, c, fo, ("missed:e2e:" + CLASS.get(c["cmd"], "?"),
+                                "%s scan of %s ports %s (source %s) on a real AF_PACKET socket never reports a plain reply-shaped frame "
+                                "addressed to the scanning host" % (c["cmd"], c["subnet"] or "any", c["ports"][:3], c["srcip"])), seen)
+            continue
+        if c.get("err"):
+            ctx.broken.append(("correspondence: e2e run of %s failed: %s" % (c["cmd"], c["err"]), ""))
+            continue
+        for u in c.get("unmatched") or []:
+            ctx.broken.append(("correspondence: e2e run of %s: a record belongs to no injected frame" % c["cmd"], u))
+        for fo in c["frames"]:
+            if not fo["sent"]:
+                continue
+            wf = wf_and_shape(CLASS.get(c["cmd"], "tcp"), False, (c["net"], c["bits"]) if c["subnet"] else None,
+                              [tuple(p) for p in c["ports"]], bytes.fromhex(fo["frame"]))[0]
+            ctx.count("e2e/%s/%s/%s" % (c["cmd"], fo["class"], "reported" if fo["record"] else "not-reported"),
+                      hashlib.md5(("e2e" + c["cmd"] + c["text"] + fo["frame"]).encode()).digest(), nontrivial=wf)
+            why = judge(c, fo, af.get(c["cmd"], True))
+            if why:
+                report(ctx, c, fo, (why[0].replace(":", ":e2e:", 1), "[end-to-end, kernel filter] " + why[1]), seen)
+
+
 def report(ctx, case, fo, why, seen):
     key, reason = why
     if key in seen:
@@ -209,12 +275,14 @@ def report(ctx, case, fo, why, seen):
     if len(ctx.findings) >= 12:
         return
     frames = [fo["frame"]]
-    if key.startswith("unfaithful") and case.get("ring"):
-        # a record that depends on an earlier frame in a reused buffer: replay the whole prefix
-        k = [x["frame"] for x in case["frames"]].index(fo["frame"])
-        frames = [x["frame"] for x in case["frames"][:k + 1]]
+    if key.startswith("unfaithful"):
+        # a record that depends on other frames of the case (reused buffer, record read after later frames):
+        # replay the whole case
+        frames = [x["frame"] for x in case["frames"] if x.get("sent", True)]
     inp = {"w": case["w"], "cmd": case["cmd"], "vpn": case["vpn"], "ring": case.get("ring", 0) if len(frames) > 1 else 0,
            "subnet": case["subnet"], "ports": case["ports"], "frames": frames}
+    if case.get("e2e"):
+        inp["e2e"] = True
     path = ctx.write_replay(re.sub(r"\W+", "-", key), {
         "property": "C03", "what": reason, "input": inp, "filter_text": case["text"], "observed": fo,
         "replay_cmd": "bin/check C03 --replay <this file>"})
@@ -282,6 +350,8 @@ def run(ctx):
             why = judge(c, fo, af.get(c["cmd"], True))
             if why:
                 report(ctx, c, fo, why, seen)
+    if ws and os.path.exists(os.path.join(verif.HBIN, "c03")):
+        judge_e2e(ctx, run_e2e(ctx, ["-seed", ctx.seed, "-n", 8 if quick else 96, "-per", 8], "e2e"), af, seen)
     for k, n in seen.items():
         if n > 1:
             ctx.info.append("%d more frames show %s" % (n - 1, k))
@@ -321,6 +391,8 @@ def run(ctx):
                     why = judge(c, fo, af.get(c["cmd"], True))
                     if why:
                         report(ctx, c, fo, why, seen)
+        if not ctx.findings:
+            judge_e2e(ctx, run_e2e(ctx, ["-seed", ctx.seed + 1000, "-n", 32, "-per", 10], "e2e-search"), af, seen)
     return ctx.finish(rule=RULE)
 
 
@@ -336,6 +408,20 @@ def replay(ctx, path):
     ws = prepare(ctx)
     i = r["input"]
     w = [k for k, x in enumerate(ws) if x["cmd"] == i["cmd"]]
+    if i.get("e2e"):
+        path2 = os.path.join(ctx.work, "e2e-replay.in.json")
+        with open(path2, "w") as f:
+            json.dump([{"w": w[0] if w else i["w"], "subnet": i["subnet"], "ports": i["ports"], "frames": i["frames"]}], f)
+        rows = run_e2e(ctx, ["-replay", path2], "e2e-replay")
+        seen = {}
+        judge_e2e(ctx, rows, {x["cmd"]: x["allflags"] for x in ws}, seen)
+        for fd in ctx.findings:
+            print("e2e replay: " + fd["what"])
+        for b in ctx.broken + [(s_, "") for s_ in ctx.skipped]:
+            print("e2e replay: " + b[0])
+        rc = 1 if ctx.findings or ctx.broken else 0
+        print("replay: " + ("the property FAILS on this input" if rc else "the property holds on this input"))
+        return rc
     rows = run_cases(ctx, [dict(i, w=w[0] if w else i["w"])], "replay")
     rc = 0
     for c in rows:
